@@ -39,11 +39,12 @@ def _lazy_io_path(repo):
 
 
 def _query(args):
-  path, P, LMAX, H, K, name, tmo = args
+  path, P, LMAX, H, K, name, tmo = args[:7]
+  faults = args[7] if len(args) > 7 else False
   sys.path.insert(0, VERIF)
   from pyts.model import Model, Unsupported
   try:
-    m = Model(path, P=P, LMAX=LMAX, H=H)
+    m = Model(path, P=P, LMAX=LMAX, H=H, faults=faults)
     r = m.bmc(K, name, timeout_s=tmo)
     r.update({"P": P, "H": H, "LMAX": LMAX, "model_lines": m.model_lines()})
     return r
@@ -52,15 +53,21 @@ def _query(args):
 
 
 def _samples(args):
-  path, P, LMAX, H, K, specs, seed = args
+  path, P, LMAX, H, K, specs, seed = args[:7]
+  faults = args[7] if len(args) > 7 else False
   sys.path.insert(0, VERIF)
   import z3
-  from pyts.model import Model
-  m = Model(path, P=P, LMAX=LMAX, H=H)
+  from pyts.model import Model, NOFAULT
+  m = Model(path, P=P, LMAX=LMAX, H=H, faults=faults)
   out = []
   for (w, choices, Ls, pin) in specs:
     def extra(mm, st, sc, w=w, choices=choices, Ls=Ls, pin=pin):
       cs = [mm.WAIT == w] + [mm.CHOICE[i] == c for i, c in enumerate(choices)] + [mm.L[i] == l for i, l in enumerate(Ls)]
+      # every other sampled run has a backend failure at the solver's choice of chunk (when the model allows faults)
+      if faults and Ls and Ls[0] > 0 and (len(choices) + sum(Ls) + int(w)) % 2 == 0:
+        cs.append(mm.FAULT[0] != NOFAULT); cs.append(mm.FAULT[0] < Ls[0])
+      elif faults:
+        cs += [f == NOFAULT for f in mm.FAULT]
       # schedule diversity: pin who moves at a few early steps (when compatible)
       for t, th in pin: cs.append(sc[t] == th)
       return z3.And(*cs)
@@ -117,8 +124,40 @@ def _real_trace_ok(res, run):
     for w in ws: got.extend(struct.unpack("%df" % CH, bytes.fromhex(w)))
     if got != want[:len(got)]: bad.append("stream %d: chunks are not the audio in order" % p)
     stopped = any(c == 3 and t == p for c, t in zip(run["choices"], run["targets"])) or not run["wait"]
+    flt = (run.get("faults") or [None] * P)[p]
+    if flt is not None:            # the backend failed at chunk `flt`: nothing after it may reach the device
+      if len(got) > flt * CH: bad.append("stream %d: %d samples delivered after the backend failed at chunk %d" % (p, len(got), flt))
+      if not stopped and len(got) != flt * CH: bad.append("stream %d: %d samples delivered before the failure at chunk %d" % (p, len(got), flt))
+      continue
     if not stopped and len(got) != len(want): bad.append("stream %d: %d of %d samples delivered although never stopped" % (p, len(got), len(want)))
   return bad
+
+
+def _replay_file(a, repo):
+  """./check C17 --replay <path>: re-runs one stored counterexample against the real classes."""
+  with open(a.replay) as f: rp = json.load(f)
+  if str(rp.get("harness", "")).startswith("h_"):          # symrun harness of props/C17s.py
+    from symrun import core
+    from fractions import Fraction
+    from props import C17s
+    model = {}
+    for n, x in rp["model"].items():
+      try: model[n] = Fraction(x)
+      except (ValueError, TypeError): model[n] = x
+    rep = core.run_concrete(getattr(C17s, rp["harness"]), rp["cfg"], model, {})
+    bad = rep["status"] in ("failed", "exception")
+    print("replay %s: status=%s clause=%s detail=%s" % (a.replay, rep["status"], rep.get("clause"), rep.get("detail")))
+  else:
+    run = rp["run"]
+    rep = _replay(repo, [run])[0]
+    if rp["clause"].startswith("deadlock") or rp["clause"] == "longer":
+      bad = rep["status"] in ("blocked", "hang"); what = rep.get("detail", "")[:300]
+    else:
+      probs = _real_trace_ok(rep, run); bad = bool(probs); what = "; ".join(probs)
+    print("replay %s: status=%s %s" % (a.replay, rep["status"], what))
+  if bad:
+    print("VIOLATION property=C17 replay=%s" % a.replay); return 1
+  return 0
 
 
 def main(a, seed):
@@ -128,12 +167,25 @@ def main(a, seed):
   path = _lazy_io_path(repo)
   tier = a.tier
   t0 = time.time()
+  if a.replay:
+    return _replay_file(a, repo)
+  # content half of the property: symrun harnesses on the real AudioThread.run (props/C17s.py), run first
+  from symrun import cli as _cli, core as _core
+  from props import C17s
+  stasks = []
+  for t in C17s.tasks(tier, seed):
+    caps = {"task_s": 300 if tier == "quick" else 1200, "query_s": 10, "max_paths": 50000, "witness_every": 1}
+    if a.only and a.only not in t[0] and a.only not in json.dumps(t[1]): continue
+    stasks.append(("C17s", t[0], t[1], caps))
+  sres = _cli.run_tasks(stasks, a.procs) if stasks else []
   from pyts.model import Model, Unsupported
   lines = []
   rc = 0
-  cfgs = [dict(P=1, H=1, LMAX=2, Ks=(30, 36, 44), tmo=300, claim=True)]
+  # faults=True: the backend may fail at one solver-chosen write per player (the exception ends the player unless the code
+  # handles it); the fault-free behaviours are the instances fault<p> = NOFAULT of the same queries
+  cfgs = [dict(P=1, H=1, LMAX=2, Ks=(30, 36, 44), tmo=300, claim=True, faults=True)]
   if tier == "thorough":
-    cfgs.append(dict(P=1, H=2, LMAX=2, Ks=(40, 48, 56), tmo=900, claim=True))
+    cfgs.append(dict(P=1, H=2, LMAX=2, Ks=(40, 48, 56), tmo=900, claim=True, faults=True))
     cfgs.append(dict(P=1, H=3, LMAX=1, Ks=(44, 52, 60), tmo=1200, claim=False))
     cfgs.append(dict(P=2, H=0, LMAX=1, Ks=(40, 46), tmo=1800, claim=True))     # two players, no control call: ~3-6 min per query
     cfgs.append(dict(P=2, H=1, LMAX=1, Ks=(46,), tmo=1800, claim=False))
@@ -150,8 +202,9 @@ def main(a, seed):
   try:
     for cfg in cfgs:
       P, H, LMAX = cfg["P"], cfg["H"], cfg["LMAX"]
+      FL = bool(cfg.get("faults"))
       try:
-        m = Model(path, P=P, LMAX=LMAX, H=H)
+        m = Model(path, P=P, LMAX=LMAX, H=H, faults=FL)
       except Unsupported as e:
         inconcl.append({"clause": "translator", "why": "translator does not support the current source: %s" % e})
         continue
@@ -160,11 +213,25 @@ def main(a, seed):
       K = None
       if not cfg.get("hunt"):
         for k in cfg["Ks"]:
-          r = pool.apply(_query, ((path, P, LMAX, H, k, "longer", cfg["tmo"]),))
+          r = pool.apply(_query, ((path, P, LMAX, H, k, "longer", cfg["tmo"], FL),))
           all_results.append(r)
           if r["result"] == "unsat":
             K = k; break
           if r["result"] != "sat": break
+        if K is None and all_results[-1]["result"] == "sat":
+          # a run that is still going after the largest K: either the ladder is too short or close() spins for ever
+          # (livelock).  Decide on the real classes: play the schedule, then let everything run freely.
+          r = all_results[-1]
+          run = dict(r, P=P, steps=r["steps"], step_timeout=0.8)
+          rep = _replay(repo, [run])[0]
+          if rep["status"] in ("blocked", "hang"):
+            what = "close() never returns (a run of the model is still going after %d steps and the real classes hang): %s" % (
+                r["K"], rep["detail"][:300])
+            viol.append({"harness": "bmc:longer", "clause": "longer", "cfg": {"P": P, "H": H, "LMAX": LMAX, "K": r["K"], "faults": FL},
+                         "detail": what, "model": {"wait": r["wait"], "L": r["L"], "choices": r["choices"], "targets": r["targets"],
+                                                   "faults": r.get("faults"), "schedule": r["schedule"]},
+                         "run": run, "what": what})
+            continue
         if K is None:
           msg = {"clause": "completeness-threshold", "why": "no K of %r proved sufficient for P=%d H=%d (last: %s)" % (cfg["Ks"], P, H, all_results[-1]["result"])}
           (inconcl if cfg["claim"] else samples_out).append(msg if cfg["claim"] else dict(msg, note="not claimed"))
@@ -173,7 +240,7 @@ def main(a, seed):
       else:
         K = cfg["Ks"][0]
       # 2. the property queries, in parallel
-      jobs = [(path, P, LMAX, H, K, q, cfg["tmo"]) for q in cfg.get("queries", QUERIES)]
+      jobs = [(path, P, LMAX, H, K, q, cfg["tmo"], FL) for q in cfg.get("queries", QUERIES)]
       for r in pool.imap_unordered(_query, jobs):
         all_results.append(r)
         if r["result"] == "unsat": continue
@@ -189,7 +256,7 @@ def main(a, seed):
             confirmed = bool(bad); what = "; ".join(bad)
           v = {"harness": "bmc:%s" % r["query"], "clause": r["query"], "cfg": {"P": P, "H": H, "LMAX": LMAX, "K": K},
                "detail": what, "model": {"wait": r["wait"], "L": r["L"], "choices": r["choices"], "targets": r["targets"],
-                                         "schedule": r["schedule"]},
+                                         "faults": r.get("faults"), "schedule": r["schedule"]},
                "run": run, "what": what}
           if confirmed: viol.append(v)
           else: errors.append({"why": "counterexample of the model did not reproduce on the real classes", "query": r["query"],
@@ -213,7 +280,7 @@ def main(a, seed):
         specs = specs[: (28 if tier == "quick" else 60)]
         chunks_ = [specs[i::4] for i in range(4)]
         runs = []
-        for part in pool.imap_unordered(_samples, [(path, P, LMAX, H, K, c, seed) for c in chunks_]):
+        for part in pool.imap_unordered(_samples, [(path, P, LMAX, H, K, c, seed, FL) for c in chunks_]):
           runs.extend(part)
         reps = _replay(repo, runs)
         for run, rep in zip(runs, reps):
@@ -221,7 +288,8 @@ def main(a, seed):
           if rep["status"] == "ok" and real == run["events"] and not _real_trace_ok(rep, run):
             validated += 1
             if len(samples_out) < 4:
-              samples_out.append({"wait": run["wait"], "L": run["L"], "choices": run["choices"], "schedule_steps": len(run["steps"]),
+              samples_out.append({"wait": run["wait"], "L": run["L"], "choices": run["choices"], "faults": run.get("faults"),
+                                  "schedule_steps": len(run["steps"]),
                                   "events": run["events"], "verdict": "model run replayed on the real classes: same event trace"})
           else:
             errors.append({"why": "model run and real run differ", "status": rep["status"], "detail": rep.get("detail", "")[:300],
@@ -230,6 +298,22 @@ def main(a, seed):
   finally:
     pool.terminate()
 
+  sagg = {"paths": 0, "obligations": 0, "discharged": 0, "witnesses": 0, "sat": 0, "unsat": 0, "unknown": 0, "solver_s": 0.0}
+  ssamples = []
+  seen = set()
+  for r in sres:
+    for k in ("paths", "obligations", "discharged", "witnesses"): sagg[k] += r[k]
+    for k in ("sat", "unsat", "unknown"): sagg[k] += r["q"][k]
+    sagg["solver_s"] += r["solver_s"]
+    if r["samples"] and len(ssamples) < 2: ssamples.append(r["samples"][0])
+    for v in r["violations"]:
+      key = (v["harness"], v["clause"], json.dumps(v["cfg"], sort_keys=True))
+      if key in seen: continue
+      seen.add(key); viol.append(v)
+    for i in r["inconclusive"]: inconcl.append(dict(i, harness=r["harness"], cfg=r["cfg"]))
+    for e in r["errors"]: errors.append(dict(e, harness=r["harness"]))
+  if stasks and sagg["obligations"] == 0 and not viol:
+    errors.append({"why": "the content harnesses explored nothing"})
   known = load_known()
   os.makedirs(os.path.join(VERIF, "replays", "C17"), exist_ok=True)
   new_v = []
@@ -238,20 +322,30 @@ def main(a, seed):
     if k is not None:
       lines.append("KNOWN-FINDING: property=C17 %s" % k["what"]); continue
     pth = os.path.join(VERIF, "replays", "C17", "%s-%d.json" % (v["clause"], n))
-    with open(pth, "w") as f: json.dump(v, f, indent=1)
+    with open(pth, "w") as f: json.dump(v, f, indent=1, default=str)
     lines.append("VIOLATION property=C17 replay=%s" % pth)
-    lines.append("  query=%s cfg=%s wait=%s L=%s control=%s\n  %s" % (v["clause"], v["cfg"], v["model"]["wait"], v["model"]["L"],
-                 list(zip(v["model"]["choices"], v["model"]["targets"])), v["detail"]))
+    if v["harness"].startswith("bmc:"):
+      lines.append("  query=%s cfg=%s wait=%s L=%s control=%s backend-failure-at-chunk=%s\n  %s" % (
+                   v["clause"], v["cfg"], v["model"]["wait"], v["model"]["L"],
+                   list(zip(v["model"]["choices"], v["model"]["targets"])), v["model"].get("faults"), v["detail"]))
+    else:
+      lines.append("  harness=%s clause=%s cfg=%s\n  detail=%s\n  inputs=%s" % (v["harness"], v["clause"], json.dumps(v["cfg"]),
+                   v["detail"], json.dumps({k: x for k, x in (v["model"] or {}).items() if "!" not in k})))
     new_v.append(v)
   claimed = [r for r in all_results if r.get("result") in ("sat", "unsat")]
   qcount = {"sat": 0, "unsat": 0, "unknown": 0}
   for r in all_results: qcount[r["result"] if r["result"] in qcount else "unknown"] += 1
   solver_s = sum(r.get("time_s", 0) for r in all_results)
   states = sum(r.get("nodes", 0) * r.get("K", 0) for r in all_results if r.get("result") == "unsat")
-  cov = {"states": max(states, 1), "transitions": max(sum(r.get("nodes", 0) * r.get("K", 0) for r in all_results), 1),
-         "traces_validated_against_impl": validated,
-         "samples": samples_out or [{"note": "no sample"}],
-         "queries": qcount, "solver_time_s": round(solver_s, 1),
+  for k in ("sat", "unsat", "unknown"): qcount[k] += sagg[k]
+  cov = {"states": max(states, 1) + sagg["paths"],
+         "transitions": max(sum(r.get("nodes", 0) * r.get("K", 0) for r in all_results), 1) + sagg["obligations"],
+         "traces_validated_against_impl": validated + sagg["witnesses"],
+         "samples": (samples_out + ssamples) or [{"note": "no sample"}],
+         "queries": qcount, "solver_time_s": round(solver_s + sagg["solver_s"], 1),
+         "content_harness": {"module": "props/C17s.py", "functions_encoded": C17s.META["functions"], "bounds": C17s.META["bounds"][tier],
+                             "paths": sagg["paths"], "obligations": sagg["obligations"], "discharged": sagg["discharged"],
+                             "witnesses_replayed_natively": sagg["witnesses"]},
          "query_results": [{k: r.get(k) for k in ("query", "P", "H", "LMAX", "K", "result", "time_s", "nodes")} for r in all_results],
          "cfg_nodes": nodes_info, "functions_encoded": META["functions"], "bounds": META["bounds"][tier],
          "outside_bounds": META["outside"], "stubs": META["stubs"], "inconclusive": inconcl[:10], "engine_errors": errors[:6],
@@ -262,7 +356,8 @@ def main(a, seed):
         "assumptions": META["assumptions"], "wall_s": round(time.time() - t0, 1), "violations": len(new_v)}
   if not a.no_evidence:
     with open(os.path.join(VERIF, "evidence", "C17.json"), "w") as f: json.dump(ev, f, indent=1, default=str)
-  print("C17 %s: queries=%s solver=%.0fs traces_validated=%d wall=%.0fs" % (tier, qcount, solver_s, validated, time.time() - t0))
+  print("C17 %s: queries=%s solver=%.0fs traces_validated=%d content paths=%d obligations=%d/%d wall=%.0fs"
+        % (tier, qcount, solver_s, validated, sagg["paths"], sagg["discharged"], sagg["obligations"], time.time() - t0))
   for r in all_results:
     print("   P=%s H=%s K=%s %-16s %s (%.1fs)" % (r.get("P"), r.get("H"), r.get("K"), r.get("query"), r.get("result"), r.get("time_s", 0)))
   for l in lines: print(l)
